@@ -193,6 +193,29 @@ def children_of(v: Any) -> List[Any]:
     return [resolve(c) for c in f(v)] if f else []
 
 
+def cached_children(v: Any) -> set:
+    """ids of (resolved) children that are reached through a cache wrapper: what such a child reports may be a stored
+    result about an *equal* earlier value (C20's subject), so identity of values is not claimed below it"""
+    from koda_validate import KeyNotRequired, Lazy
+    from koda_validate.base import CacheValidatorBase
+    f = CHILD_ATTRS.get(type(v).__name__)
+    out = set()
+    for c in (f(v) if f else []):
+        through, cur = False, c
+        for _ in range(50):
+            if isinstance(cur, Lazy):
+                cur = cur.validator()
+            elif isinstance(cur, CacheValidatorBase):
+                through, cur = True, cur.validator
+            elif isinstance(cur, KeyNotRequired):
+                cur = cur.validator
+            else:
+                break
+        if through:
+            out.add(id(cur))
+    return out
+
+
 def direct_children(e: Any) -> List[Any]:
     if isinstance(e, KE.ContainerErr):
         return [e.child]
@@ -326,6 +349,7 @@ def walk(v: Any, x: Any, inv: Any, path: str) -> Optional[str]:
     kids = children_of(v)
     kid_x = child_inputs(v, x, e)
     slot_owner = slot_owners(v, e)
+    cached_kids = cached_children(v)
     for i, ch in enumerate(direct_children(e)):
         if type(ch) is Invalid and isinstance(ch.err_type, KE.MissingKeyErr) and ch.validator is v:
             if x is not _NOARG and plain(v) and isinstance(x, dict) and ch.value is not x:
@@ -338,7 +362,7 @@ def walk(v: Any, x: Any, inv: Any, path: str) -> Optional[str]:
         if owner is None:
             # an error produced deeper by a union/optional child still names that child
             return f"{path}/{i}: child error names {ch.validator!r}, which is not a child validator of {v!r}"
-        r = walk(owner, kid_x[i], ch, f"{path}/{i}")
+        r = walk(owner, _NOARG if id(owner) in cached_kids else kid_x[i], ch, f"{path}/{i}")
         if r:
             return r
     return None
